@@ -162,27 +162,41 @@ def run_harness(bin_name, seed, scale, extra_env=None, crate=HARNESS, timeout=18
     return p.returncode, cases, notes, p.stderr.decode("utf-8", "replace")[-2000:]
 
 
+def bin_spec(spec, bin_name):
+    """typing information (imports, case type, checkers) for the cases of one harness binary"""
+    for b in spec["harness"]:
+        if b["bin"] == bin_name and "case_type" in b:
+            return b
+    return spec
+
+
 def eval_cases(pid, spec, cases, tag):
     """evaluate checker(case) for every case with vm_compute in parallel coqc processes.
-    returns (codes: list[int|None], errors: [str])"""
+    cases: list of (family, term[, bin]).  returns (codes: list[int|None], errors: [str])"""
     wd = os.path.join(WORK, pid, tag)
     shutil.rmtree(wd, ignore_errors=True)
     os.makedirs(wd)
-    shard = spec.get("shard", 250)
-    shards = [list(range(i, min(i + shard, len(cases)))) for i in range(0, len(cases), shard)]
-    hdr = "From Passage Require Import %s.\nLocal Open Scope Z_scope.\nSet Printing Depth 1000000.\nSet Printing Width 160.\n" % " ".join(spec["imports"])
+    groups = {}
+    for i, c in enumerate(cases):
+        groups.setdefault(c[2] if len(c) > 2 else None, []).append(i)
     files = []
-    for k, idxs in enumerate(shards):
-        path = os.path.join(wd, "cases_%d.v" % k)
-        with open(path, "w") as f:
-            f.write(hdr)
-            for i in idxs:
-                fam, term = cases[i]
-                f.write("Definition c%d : %s := %s.\n" % (i, spec["case_type"], term))
-            f.write("Definition results : list (Z * Z) := [%s].\n" % "; ".join(
-                "(%d, %s c%d)" % (i, spec["checkers"][cases[i][0]], i) for i in idxs))
-            f.write("Eval vm_compute in results.\n")
-        files.append((path, idxs))
+    k = 0
+    for bname, members in groups.items():
+        bs = bin_spec(spec, bname) if bname else spec
+        shard = bs.get("shard", spec.get("shard", 250))
+        hdr = ("From Passage Require Import %s.\nLocal Open Scope Z_scope.\nSet Printing Depth 1000000.\nSet Printing Width 160.\n"
+               % " ".join(bs["imports"]))
+        for j in range(0, len(members), shard):
+            idxs = members[j:j + shard]
+            path = os.path.join(wd, "cases_%d.v" % k); k += 1
+            with open(path, "w") as f:
+                f.write(hdr)
+                for i in idxs:
+                    f.write("Definition c%d : %s := %s.\n" % (i, bs["case_type"], cases[i][1]))
+                f.write("Definition results : list (Z * Z) := [%s].\n" % "; ".join(
+                    "(%d, %s c%d)" % (i, bs["checkers"][cases[i][0]], i) for i in idxs))
+                f.write("Eval vm_compute in results.\n")
+            files.append((path, idxs))
     codes = [None] * len(cases)
     errors = []
     def one(item):
@@ -224,8 +238,7 @@ def run_batch(pid, spec, seed, scale, tag):
         fams = b.get("families")
         all_cases += [(f, t, b["bin"]) for f, t in cases if fams is None or f in fams]
         notes += nts
-    cases2 = [(f, t) for f, t, _ in all_cases]
-    codes, errors = eval_cases(pid, spec, cases2, tag) if cases2 else ([], [])
+    codes, errors = eval_cases(pid, spec, all_cases, tag) if all_cases else ([], [])
     problems += errors
     return all_cases, codes, notes, problems
 
@@ -429,7 +442,7 @@ def replay(pid, spec, path):
     print("recorded case : %s" % r["case"][:2000])
     print("re-run on impl: %s" % (now[1][:2000] if now else "<index out of range>"))
     if now:
-        codes, errs = eval_cases(pid, spec, [now], "replay")
+        codes, errs = eval_cases(pid, spec, [(now[0], now[1], r["bin"])], "replay")
         print("model/monitor code now: %s (0 ok, +1 model!=impl, +2 monitor false) %s" % (codes[0], errs))
         if codes[0] and codes[0] & 2:
             print("VIOLATION property=%s replay=%s" % (pid, os.path.relpath(path, ROOT))); return 1
